@@ -541,3 +541,25 @@ fn c07_joint_inv_inductive() {
     assert!(joint_inv(&p, &sl));
     assert!(p.retry_count <= fdl.parameters().max_retry_limit + 1);
 }
+
+/// C03 / C08: reset_address() is a request to (re-)parameterise: the peripheral starts over from Offline with FCB First,
+/// no stale diagnostics, and keeps its buffers
+#[kani::proof]
+#[kani::unwind(10)]
+fn c03_reset_address() {
+    let mut b = any_bufs();
+    let (q_copy, i_copy) = (b.pi_q, b.pi_i);
+    let mut p = any_peripheral(&mut b, any_state());
+    let (nq, ni) = (p.pi_q().len(), p.pi_i().len());
+    let had_diag_buf = p.ext_diag.is_available();
+    let new_addr: u8 = kani::any();
+    p.reset_address(new_addr);
+    assert!(p.address == new_addr && p.state == PeripheralState::Offline && p.retry_count == 0);
+    assert!(p.fcb == crate::fdl::FrameCountBit::First && !p.diag_needed && p.diag.is_none());
+    assert!(!p.is_live() && !p.is_running());
+    assert!(p.pi_q().len() == nq && p.pi_i().len() == ni && p.ext_diag.is_available() == had_diag_buf);
+    let i: usize = kani::any();
+    kani::assume(i < PDU_MAX);
+    if i < nq { assert!(p.pi_q()[i] == q_copy[i]); }
+    if i < ni { assert!(p.pi_i()[i] == i_copy[i]); }
+}
